@@ -358,7 +358,9 @@ func runDavSchedule(c *fw.Ctx, cfg schedCfg, idx int) {
 	// State a failure path leaves behind in the handler or the file system
 	// layer (a buffer returned twice, a stale cache) only shows up in the
 	// requests that follow.
-	for k := 0; k < 3; k++ {
+	// Every other configuration skips it, so that the very first requests a
+	// brand-new handler sees are concurrent ones (lazily built state).
+	for k := 0; k < 3 && (cfg.Rep+cfg.N+cfg.GOMAXPROCS)%2 == 0; k++ {
 		req := httptest.NewRequest("PUT", fmt.Sprintf("http://dav.test/prelude-%d", k), &brokenBody{n: 100 + 5000*k})
 		req.ContentLength = 1 << 20
 		h.ServeHTTP(httptest.NewRecorder(), req)
